@@ -224,6 +224,10 @@ func TestVerif_C09_Parallel(t *testing.T) {
 					}
 					env, err := w.S.s.SealEnvelope(vctx, w.groups[gi], vWrap(p))
 					inflight.Add(-1)
+					if err == nil && readBack && (ti+mi)%3 == 0 {
+						// ... and its own message may come back to it outside the store first (push relayed to all devices)
+						_, _, _, _, _ = w.S.s.OpenOutOfStoreMessage(vctx, c14Push(w.S, w.groups[gi], env))
+					}
 					if err == nil && readBack {
 						// the sender's own message store opens every entry of the log, its own included
 						if o, e2 := vOpen(w.S, w.groups[gi], env, vCID(env)); e2 != nil || !bytes.Equal(o.Payload, p) {
@@ -296,6 +300,9 @@ func c09Controlled(t *testing.T, sc c09Scenario, choices []int) vsched.Outcome {
 						return
 					}
 					sent = append(sent, c09Sent{0, env, p})
+					if sc.ReadBack && mi%2 == 0 {
+						_, _, _, _, _ = w.S.s.OpenOutOfStoreMessage(vctx, c14Push(w.S, w.groups[0], env))
+					}
 					if sc.ReadBack {
 						if o, err := vOpen(w.S, w.groups[0], env, vCID(env)); err != nil || !bytes.Equal(o.Payload, p) {
 							errs = append(errs, fmt.Sprintf("own envelope does not open on the sender: %v", err))
